@@ -990,13 +990,28 @@ class Evaluator:
         sub.cls_ctx = None
         sub.classes_truthy = getattr(self, 'classes_truthy', False)
         sub.explore_handlers = self.explore_handlers
+        # a nested function inlined into the function that defines it is a closure: it reads the enclosing bindings, and the names it
+        # declares `nonlocal` are written back to the enclosing frame when it returns
+        nonlocals = set()
+        encl = getattr(fn, '_parent', None)
+        while encl is not None and not isinstance(encl, (ast.FunctionDef, ast.AsyncFunctionDef, ast.ClassDef, ast.Module)):
+            encl = getattr(encl, '_parent', None)
+        if isinstance(encl, (ast.FunctionDef, ast.AsyncFunctionDef)) and path.frames and self_term is None:
+            for k, v in path.frames[-1].items():
+                frame.setdefault(k, v)
+            for st_ in ast.walk(fn):
+                if isinstance(st_, ast.Nonlocal):
+                    nonlocals.update(st_.names)
         path.frames.append(frame)
         path.depth += 1
         outs = sub.block(fn.body, path)
         self.npaths = sub.npaths
         res = []
         for p in outs:
-            p.frames.pop()
+            fr_ = p.frames.pop()
+            for n_ in nonlocals:
+                if n_ in fr_:
+                    p.frames[-1][n_] = fr_[n_]
             p.depth -= 1
             o = p.outcome
             if o is None or o[0] == 'return':
